@@ -167,6 +167,7 @@ pub mod verif
         true
     }
 
+    #[allow(dead_code)]
     fn step_rule(ntargets : usize)
     {
         let mut raw = any_raw();
@@ -200,15 +201,9 @@ pub mod verif
         }
     }
 
-    /*  STEP: work::handle_rule_node, one target. */
-    crate::step_harness!(step_rule_1t, 4, {
-        step_rule(1);
-    });
-
-    /*  STEP: work::handle_rule_node, two targets. */
-    crate::step_harness!(step_rule_2t, 4, {
-        step_rule(2);
-    });
+    /*  (step_rule is not registered as a harness: the whole of handle_rule_node in one formula
+        exhausts CBMC's memory during propositional reduction -- see the phase decomposition below;
+        it is kept as the statement of the combined post-condition.) */
 
     /*  STEP: work::handle_source_only_node. */
     crate::step_harness!(step_leaf, 4, {
@@ -338,125 +333,11 @@ pub mod verif
     crate::step_harness!(step_resolve_phase_1t, 4, { step_resolve_phase(1); });
     crate::step_harness!(step_resolve_phase_2t, 4, { step_resolve_phase(2); });
 
-    /*  rebuild_node from any state under I1/I3.  History may or may not have an
-        entry for the sources hash, and the entry need NOT agree with what the
-        command produces now (that is C17's scenario); when it does agree (or
-        is absent) the C01 post-condition must hold. */
-    fn step_rebuild_phase(ntargets : usize)
-    {
-        let mut raw = any_raw();
-        let pre = prestate::decode(&mut raw, ntargets, Clock::Distinct, false);
-        install(&pre);
-        let before = [fs().ws[0], fs().ws[1]];
-        let other_before = fs().ws[2];
-        let cache_before = fs().cache;
-        let h = history_of(&pre);
-        let blob = blob_of(&pre);
-        let mut sys = SymSystem {};
-        let r = rebuild_node(&mut sys, h, sources_ticket(), vec![String::from("x")], blob);
-        let f = fs();
-        assert!(f.n_exec == 1, "[C02][C20] rebuilding did not run the command exactly once");
-        assert!(f.n_renames == 0 && f.n_creates == 0 && f.n_chmods == 0, "[C08][C09] rebuilding moved or created files itself");
-        assert!(f.ws[2] == other_before, "[C09] an out-of-scope file changed");
-        let mut differs = [false; 2];
-        let mut any_differs = false;
-        let mut i = 0;
-        while i < ntargets
-        {
-            if pre.has_history && pre.remembered[i] != pre.out[i]
-            {
-                differs[i] = true;
-                any_differs = true;
-            }
-            i += 1;
-        }
-        match r
-        {
-            Ok(result) =>
-            {
-                kani::cover!(true, "rebuild Ok reachable");
-                assert!(!any_differs, "[C17] command output contradicts the recorded output for identical sources but the build succeeded");
-                let mut i = 0;
-                while i < ntargets
-                {
-                    assert!(f.ws[i].present && f.ws[i].content == pre.out[i],
-                        "[C01] rebuild succeeded but a target does not hold what the command produces");
-                    assert!(result.file_state_vec.get_ticket(i) == ticket_of_content(pre.out[i]),
-                        "[C01][C03][C18] hash handed to dependents after a rebuild is not the hash of the target's content");
-                    i += 1;
-                }
-                match &result.rule_history
-                {
-                    Some(hh) => match hh.get_file_state_vec(&sources_ticket())
-                    {
-                        Some(v) =>
-                        {
-                            let mut i = 0;
-                            while i < ntargets
-                            {
-                                assert!(v.get_ticket(i) == ticket_of_content(pre.out[i]),
-                                    "[C01][C02] history after a rebuild does not record the targets' true hashes");
-                                i += 1;
-                            }
-                        },
-                        None => assert!(false, "[C02] history after a rebuild has no entry for the sources it was built from"),
-                    },
-                    None => assert!(false, "[C02] rebuild returned no history"),
-                }
-                let mut i = 0;
-                while i < ntargets
-                {
-                    let st = crate::blob::verif::blob_state(&result.blob, i);
-                    assert!(st.ticket == ticket_of_content(pre.out[i]) && st.timestamp == 1_000_000u64 * ((if i == 0 { pre.fresh } else { pre.fresh2 }) as u64),
-                        "[C18][C01] file-state table entry written back after a rebuild is not (hash, mtime) of the new file");
-                    assert!(st.executable == f.ws[i].exec, "[C10] file-state table entry does not record the executable bit");
-                    i += 1;
-                }
-                match result.work_option
-                {
-                    WorkOption::CommandExecuted(_) => {},
-                    _ => assert!(false, "[C20] command ran but the result does not say so"),
-                }
-                std::mem::forget(result);
-            },
-            Err(WorkError::Contradiction(paths)) =>
-            {
-                kani::cover!(true, "Contradiction reachable");
-                assert!(any_differs, "[C17][C04] contradiction reported although the outputs equal the recorded ones");
-                let mut expect = 0;
-                let mut i = 0;
-                while i < ntargets
-                {
-                    if differs[i] { expect += 1; }
-                    i += 1;
-                }
-                assert!(paths.len() == expect, "[C17] contradiction error does not name exactly the differing targets");
-                let mut k = 0;
-                let mut i = 0;
-                while i < ntargets
-                {
-                    if differs[i]
-                    {
-                        if k < paths.len()
-                        {
-                            assert!(paths[k].as_bytes().len() == 1 && paths[k].as_bytes()[0] == b'a' + i as u8,
-                                "[C17] contradiction error names the wrong target");
-                        }
-                        k += 1;
-                    }
-                    i += 1;
-                }
-                std::mem::forget(paths);
-            },
-            Err(e) =>
-            {
-                assert!(false, "[C04] rebuild failed although the command succeeded and produced every target");
-                std::mem::forget(e);
-            },
-        }
-    }
-
-
+    /*  rebuild_node from any state under I1/I3.  The rule history may or may not have an entry for
+        the sources hash, and the entry need NOT agree with what the command produces now (C17's
+        scenario); when it agrees (or is absent) the C01 post-condition must hold.  RuleHistory::insert
+        is replaced by its contract model (the real insert + compare are decided on their own in
+        unit_history_insert): with the real one in place CBMC runs out of memory. */
     fn step_rebuild_phase_m(ntargets : usize)
     {
         use crate::history::verif_insert_model as im;
@@ -558,7 +439,6 @@ pub mod verif
         }
     }
 
-    crate::step_harness!(step_rebuild_phase_1t, 4, { step_rebuild_phase(1); });
 
     #[kani::proof]
     #[kani::unwind(4)]
@@ -570,7 +450,7 @@ pub mod verif
     #[kani::stub(<std::string::String as Clone>::clone, crate::stubs::string_clone_short)]
     #[kani::stub(crate::history::RuleHistory::insert, crate::history::verif_insert_model::insert_model)]
     #[kani::stub(<crate::blob::FileStateVec as Clone>::clone, crate::blob::verif::fsv_clone_small)]
-    fn exp_rebuild_insert_model_1t()
+    fn step_rebuild_node_1t()
     {
         step_rebuild_phase_m(1);
     }
@@ -584,29 +464,11 @@ pub mod verif
     #[kani::stub(alloc::alloc::dealloc, crate::stubs::dealloc_noop)]
     #[kani::stub(<std::string::String as Clone>::clone, crate::stubs::string_clone_short)]
     #[kani::stub(crate::history::RuleHistory::insert, crate::history::verif_insert_model::insert_model)]
-    fn exp_rebuild_min_1t()
+    #[kani::stub(<crate::blob::FileStateVec as Clone>::clone, crate::blob::verif::fsv_clone_small)]
+    fn step_rebuild_node_2t()
     {
-        use crate::history::verif_insert_model as im;
-        let mut raw = any_raw();
-        let pre = prestate::decode(&mut raw, 1, Clock::Distinct, false);
-        install(&pre);
-        unsafe
-        {
-            im::EXPECT_SOURCE_BYTE = 1;
-            im::EXPECT_LEN = 1;
-            im::EXPECT_CONTENT = pre.out;
-            im::HAS_ENTRY = pre.has_history;
-            im::ENTRY_CONTENT = pre.remembered;
-        }
-        let h = history_of(&pre);
-        let blob = blob_of(&pre);
-        let mut sys = SymSystem {};
-        let r = rebuild_node(&mut sys, h, sources_ticket(), vec![String::from("x")], blob);
-        assert!(fs().n_exec == 1, "[C02][C20] rebuilding did not run the command exactly once");
-        std::mem::forget(r);
+        step_rebuild_phase_m(2);
     }
-
-    crate::step_harness!(step_rebuild_phase_2t, 4, { step_rebuild_phase(2); });
 
     /*  STEP: work::clean_targets from any pre-state under I1/I3. */
     fn step_clean(ntargets : usize)
